@@ -42,7 +42,9 @@ Lex == [
   open2    |-> <<"{{", "{{{", "{ {", "{">>,
   close2   |-> <<"}}", "}}}", "} }", "}">>,
   ent      |-> <<"&amp;", "&lt;", "&#65;", "&#x41;", "&bogus;", "&#xFFFFFFFF;", "&#99999999999;", "&#;", "&#x;", "&amp", "&;",
-                 "&#0;", "&#xD800;", "&#1114112;", "&nbsp;", "&NotEqualTilde;">>,
+                 "&#0;", "&#xD800;", "&#1114112;", "&nbsp;", "&NotEqualTilde;",
+                 (* a name that goes on with letters and digits outside ASCII (no reference at all: `Q&A..;` in running text) *)
+                 "&A~UIDENT~;", "&a~COMB~;", "&x~UDIGIT~;", "&ab~UIDENT~;", "&~UIDENT~;", "&#~UDIGIT~;", "&#x~UDIGIT~;">>,
   name     |-> <<"div", "view", "block", "template", "slot", "import", "include", "wxs", "wx-x", "a:b", "A", "a.b", "_", "a1">>,
   badname  |-> <<"1", "-", ".", ":", "!", "?", "=", "\"", "'", "#", "%", "@", "*", "\\", "`", "$", "(", ")", "[", "]", ",", ";", "+", "|", "^", "~">>,
   attr     |-> <<"a", "class", "style", "id", "slot", "hidden", "wx:if", "wx:elif", "wx:else", "wx:for", "wx:for-item", "wx:for-index",
